@@ -399,6 +399,8 @@ func main() {
 	bound := fmt.Sprintf("histories of length <= %d (completed %d); level 1: full alphabet of %d operations = all strings of <= %d segments over %v, abs/rel, as-is/trailing-slash/doubled-slash x %d single-path calls + %d-string core squared x Rename/Link/Symlink + Getwd + %d fixed Glob patterns + %d strings naming the prefix sibling %s of B x the single-path calls + base.Chdir(d) on the base itself, d in %v, each followed by Getwd, Abs(\"f\"), Stat(\"f\") through the wrapper + through the view sv=Sub(d), d in %v: %d operand strings x the single-path calls and %d operand pairs x Rename/Link/Symlink on sv (level 1 only) + sv.Symlink(t,%q) for %d targets t followed either by Lstat, Stat, ReadFile, ReadDir of the link through the wrapper and Stat, ReadFile through sv, or by WriteFile through the wrapper and through sv (all levels); + %d strings and %d pairs naming the base-side symbolic links %v + %d strings through the links of the variant out-links (level 1); level k >= 2: Getwd, the Glob patterns, the base.Chdir operations, the Sub-Symlink operations and the operations whose path operands are relative or contain '..' and have <= %v segments (levels 2..): %d operations at level 2, %d at level 3",
 		d, depthDone, perLevel[1], segs[0], segAlphabet, len(singleCalls), len(pairCore), len(fixedGlobs), len(siblingStrings), siblingPath, baseChdirTargets, subDirs, len(subPaths), len(subPairs), subLinkName, len(subLinkTargets), len(linkStrings), len(linkPairs), baseLinks, len(outLinkStrings), segs[1:], perLevel[2], perLevel[3])
 
+	bound += fmt.Sprintf("; handles that outlive their name: on every string of the single-path calls (not through Sub views) the %d compound calls %v = open a handle on p (read-write, else read-only), then through the same file system Rename(p,%q) | RemoveAll(p) | Rename(p,%q) followed by a new object of the other kind under the name p, then the methods Name, Stat, ReadDir, Readdirnames, Read, ReadAt, Seek, Write, WriteAt, WriteString, Truncate, Sync, Chmod, Chown, Fd, Stat, Chdir (+ Getwd, and ReadDir(\".\") if it succeeded), Close, Stat of the handle (levels as for the other calls on the string); the mode argument: on the strings of <= %d segments the calls that take a mode with, or'ed into the permission bits of the plain call, the bits (letters of fs.FileMode.String, - = none) %s, OpenChmod = File.Chmod on a handle opened read-only", len(handleCalls), handleCalls, handleFree, handleFree, modeSegs(*tier), modeArgsText(*tier))
+
 	bound += fmt.Sprintf("; variant systems: for every base type the wrapper built with each spelling of B in %v (a relative one from the base's cwd /top) - first level reduced to the %d operations that are not single-path calls on strings of more than 2 segments, next levels only from the states in which the base's cwd has moved to a cleanly spelled directory -, and MemFS+out-links with the links %v in B, first level (same %d operations) only; MemFS+ro: BasePathFS(rofs.New(base)) against rofs.New(reference), the whole first level; MemFS+user: base and reference with an identity manager, calls made by the non-administrator user %q in a world with %s, first level = the same %d operations, which include %d strings and %d pairs naming that world", spellingList(), compactOps(ops), outLinks, compactOps(ops), userName, "w (the user's) holding w/f (the user's) and the root-owned non-empty w/locked, the root-owned 0700 directory p with p/f, the root-owned 0600 file s, everything else root-owned 0755/0644", compactOps(ops), len(userStrings), len(userPairs))
 
 	nameDepth := fmt.Sprintf("over MemFS as deep as the spellings of B (first level, then up to history length %d from the states in which the base's cwd has moved), over OrefaFS one level less (history length <= %d)", d, d-1)
@@ -440,7 +442,8 @@ func main() {
 			"failures of the base are produced only by file systems of the library used as they are - the read-only view rofs.New (variant ro: every mutating call refused) and MemFS's own permission checks for a non-administrator user (variant user) -, never by fault injection, with the one exception of the variant kept-errors (next assumption); in both variants the reference is built the same way (rofs.New(standalone), same user in the same world), so outcome kinds, effects and error paths are compared as everywhere else; signatures carry variant=ro|user; an error path that names an entry of the directory the reference's error names is classed entry-of-virtual-path",
 			"variant kept-errors (MemFS): the only use of fault injection. The library's FailFS stands between the wrapper and the base, and around the reference, with one failure function per side (same rule, own namespace) that refuses by CALL: the functions listed in the bound whose operand lies at or below the locked locations; nothing else fails. The function works per call, not per node, so the system is restricted to where both sides consult it for the same calls: no locked entry in B's root (RemoveAll of the root is taken apart by the wrapper), no Sub views, and the reference walks with the library's generic walker avfs.WalkDir over its failing Lstat/ReadDir as the wrapper does (FailFS.WalkDir would consult the function for the root only). The error values are prepared once per distinct call and kept by the failure function (the same pointer is returned again): that a file system may keep the error values it returns is assumed to be legitimate for an avfs.VFS (nothing in the interface gives them to the caller); kind base-error-modified = after a step some kept value of the base's side no longer has the fields it was prepared with; such a state is not expanded and the instances are rebuilt (the kept values are hidden state outside the state key); signatures carry variant=kept-errors, the second execution of a call has call=<call>.again[.<sub-call>]",
 			"variants name:<class>: the name of the base directory is chosen among names that are legitimate for the file system (Linux type: any byte but '/' and NUL) and mean something as a glob pattern; the operations are those of the alphabet, written for B=/top/b and its sibling /top/bb and spelled for the world by replacing whole segments (\"b\" -> <name>, \"bb\" -> <sibling>), so the virtual namespace also gets entries named like the base directory and patterns made of its name; the reference receives the same spelled strings; signatures are written in the alphabet's spelling (FileInfo.Name of the base directory is reported as name=b) and carry variant=name:<class>, basecwd=pattern-sibling when the base's cwd is in a sibling that is not a prefix sibling; replays name the operation in the alphabet's spelling, the detail gives op_as_spelled",
-			"file handles are exercised inside compound operations (Open/OpenFile, methods, Close): no handle survives a step",
+			"file handles are exercised inside compound operations (Open/OpenFile, methods, Close): no handle survives a step; in the handle calls the name is taken away from the object between the open and the methods, inside the step, by the wrapper's own Rename/RemoveAll (never by a call on the base); the comparison of a handle call stops at the first sub-call whose outcome kind differs (the later methods act on what the former left); the error path of the ReadDir(\".\") that follows a successful File.Chdir is not compared (it is relative to the directory just entered)",
+			"mode arguments: the special bits and type bits are or'ed into the permission bits of the plain call; what the base makes of them (MemFS/OrefaFS mask the type bits) is the reference's business - the wrapper must hand the mode on unchanged, which shows in the outcome and in the 12 mode bits of the node-graph dumps compared after every call",
 		},
 		Violations: rep.NewCount(),
 	}
